@@ -58,11 +58,15 @@ func (k Keeper) handleBridgeHook(ctx sdk.Context, data []byte, hookMaxGas uint64
 			return
 		}
 
-		_, err = handler(cacheCtx, msg)
+		res, err := handler(cacheCtx, msg)
 		if err != nil {
 			reason = fmt.Sprintf("Failed to execute Msg: %s", err)
 			return
 		}
+
+		// the router runs each msg with its own event manager; hand its events to the
+		// cache context so that they are emitted if, and only if, the hook is committed.
+		cacheCtx.EventManager().EmitEvents(res.GetEvents())
 	}
 
 	commit()
